@@ -99,7 +99,7 @@ func expectedNames() map[string]bool {
 	return out
 }
 
-func genMutants(fset *token.FileSet, src []byte, fd *ast.FuncDecl, ops map[string]bool) []srcMutant {
+func genMutants(fset *token.FileSet, src []byte, fd *ast.FuncDecl, ops map[string]bool, info *types.Info, gen2 bool) []srcMutant {
 	var out []srcMutant
 	off := func(p token.Pos) int { return fset.Position(p).Offset }
 	add := func(op string, s, e int, repl string, pos token.Pos) {
@@ -168,9 +168,85 @@ func genMutants(fset *token.FileSet, src []byte, fd *ast.FuncDecl, ops map[strin
 		case *ast.DeferStmt:
 			add("delete-defer", off(x.Pos()), off(x.End()), "", x.Pos())
 		}
+		if !gen2 {
+			return true
+		}
+		// second generation: the kinds of change the blind seed waves used that the first operator set lacks
+		switch x := n.(type) {
+		case *ast.BinaryExpr:
+			switch x.Op {
+			case token.EQL:
+				add("widen-eq", off(x.OpPos), off(x.OpPos)+2, "<=", x.OpPos)
+				add("widen-eq", off(x.OpPos), off(x.OpPos)+2, ">=", x.OpPos)
+			case token.NEQ:
+				add("narrow-neq", off(x.OpPos), off(x.OpPos)+2, "<", x.OpPos)
+				add("narrow-neq", off(x.OpPos), off(x.OpPos)+2, ">", x.OpPos)
+			}
+		case *ast.UnaryExpr:
+			if x.Op == token.NOT {
+				add("drop-not", off(x.OpPos), off(x.OpPos)+1, "", x.OpPos)
+			}
+		case *ast.BasicLit:
+			if x.Kind == token.INT {
+				if v, err := strconv.ParseInt(x.Value, 0, 64); err == nil && v >= 1 && v < 1<<40 {
+					add("literal-1", off(x.Pos()), off(x.End()), strconv.FormatInt(v-1, 10), x.Pos())
+				}
+			}
+		case *ast.CallExpr:
+			// swap two adjacent arguments (the compiler rejects it unless their types agree)
+			for i := 0; i+1 < len(x.Args); i++ {
+				a, b := x.Args[i], x.Args[i+1]
+				sa, sb := string(src[off(a.Pos()):off(a.End())]), string(src[off(b.Pos()):off(b.End())])
+				if sa != sb {
+					add("swap-args", off(a.Pos()), off(b.End()), sb+string(src[off(a.End()):off(b.Pos())])+sa, a.Pos())
+				}
+			}
+		case *ast.BlockStmt:
+			// swap two adjacent simple statements
+			for i := 0; i+1 < len(x.List); i++ {
+				a, b := x.List[i], x.List[i+1]
+				simple := func(st ast.Stmt) bool {
+					switch y := st.(type) {
+					case *ast.ExprStmt, *ast.IncDecStmt:
+						return true
+					case *ast.AssignStmt:
+						return y.Tok != token.DEFINE || true
+					}
+					return false
+				}
+				if simple(a) && simple(b) {
+					sa, sb := string(src[off(a.Pos()):off(a.End())]), string(src[off(b.Pos()):off(b.End())])
+					add("swap-stmts", off(a.Pos()), off(b.End()), sb+string(src[off(a.End()):off(b.Pos())])+sa, a.Pos())
+				}
+			}
+		case *ast.SelectorExpr:
+			// another field of the same struct with the identical type (the "wrong option passed" change)
+			if info != nil {
+				if sel, ok := info.Selections[x]; ok && sel.Kind() == types.FieldVal {
+					if st, ok := derefStruct(sel.Recv()); ok {
+						n := 0
+						for i := 0; i < st.NumFields() && n < 2; i++ {
+							f := st.Field(i)
+							if f.Name() != x.Sel.Name && types.Identical(f.Type(), sel.Obj().Type()) && (f.Exported() || f.Pkg() == sel.Obj().Pkg()) {
+								add("sibling-field", off(x.Sel.Pos()), off(x.Sel.End()), f.Name(), x.Sel.Pos())
+								n++
+							}
+						}
+					}
+				}
+			}
+		}
 		return true
 	})
 	return out
+}
+
+func derefStruct(t types.Type) (*types.Struct, bool) {
+	if p, ok := t.Underlying().(*types.Pointer); ok {
+		t = p.Elem()
+	}
+	st, ok := t.Underlying().(*types.Struct)
+	return st, ok
 }
 
 func cmdMutate(args []string) int {
@@ -181,6 +257,8 @@ func cmdMutate(args []string) int {
 	par := fs.Int("j", 10, "mutants verified in parallel")
 	opsF := fs.String("ops", "", "comma separated operators (default: all)")
 	limit := fs.Int("limit", 0, "stop after this many mutants (0: no limit)")
+	gen2F := fs.Bool("gen2", false, "add the second-generation operators (widen ==, narrow !=, drop !, literal-1, swap adjacent arguments / statements, sibling field of the same type)")
+	onlyGen2 := fs.Bool("only-gen2", false, "with -gen2: run only the second-generation operators")
 	propF := fs.String("property", "", "only obligations on the expectation list of this property's check")
 	stride := fs.Int("stride", 1, "take every n-th mutant ...")
 	phase := fs.Int("phase", 0, "... starting with this one (a sample that changes with the seed)")
@@ -288,7 +366,7 @@ func cmdMutate(args []string) int {
 						}
 						baseline[u] = st
 					}
-					for _, m := range genMutants(eng.fset, src, fd, ops) {
+					for _, m := range genMutants(eng.fset, src, fd, ops, p.TypesInfo, *gen2F) {
 						m.File = strings.TrimPrefix(path, repoRoot+"/")
 						m.Func = displayName(key)
 						m.units = units
@@ -299,6 +377,16 @@ func cmdMutate(args []string) int {
 				}
 			}
 		}
+	}
+	if *onlyGen2 {
+		g2 := map[string]bool{"widen-eq": true, "narrow-neq": true, "drop-not": true, "literal-1": true, "swap-args": true, "swap-stmts": true, "sibling-field": true}
+		var pick []srcMutant
+		for _, m := range all {
+			if g2[m.Op] {
+				pick = append(pick, m)
+			}
+		}
+		all = pick
 	}
 	if *stride > 1 {
 		var pick []srcMutant
@@ -403,7 +491,7 @@ func cmdMutate(args []string) int {
 	if *outF != "" {
 		os.WriteFile(*outF, []byte(outb.String()), 0o644)
 	}
-	if *fileF == "" && *funcF == "" && *limit == 0 && !*anyOb && len(ops) == 0 && *propF == "" && *stride <= 1 {
+	if *fileF == "" && *funcF == "" && *limit == 0 && !*anyOb && len(ops) == 0 && *propF == "" && *stride <= 1 && !*onlyGen2 {
 		// a complete sweep: keep its summary next to the triage file
 		byOp := map[string]map[string]int{}
 		var open []map[string]interface{}
